@@ -112,6 +112,8 @@ def verify_function(eng, qualname):
 
 
 def frame_entry(eng, st, tgt):
+    if tgt[0] == 'ref' and isinstance(tgt[1].k, tuple) and tgt[1].k[0] == 'pdict':
+        return ('block', tgt[1].py[0], tgt[1].py[1])
     if tgt[0] == 'ref':
         return ('ref', tgt[1].t)
     if tgt[0] == 'each':
